@@ -158,8 +158,8 @@ unit("lib.string.trim.checkset", "trim_help_checkset(set, x) returns 1 exactly w
      assumes=[], mutants=[mut("skips-first-set-byte", "string.c", "    for (int32_t j = 0; j < set.len; j++)\n        if (set.bytes[j] == x)", "    for (int32_t j = 1; j < set.len; j++)\n        if (set.bytes[j] == x)", "C17"),
                           mut("reads-past-set", "string.c", "    for (int32_t j = 0; j < set.len; j++)\n        if (set.bytes[j] == x)", "    for (int32_t j = 0; j <= set.len; j++)\n        if (set.bytes[j] == x)", "pointer_dereference|C17")], **SM)
 unit("lib.string.checkset", "string/check-set: arity 2; returns true exactly when every byte of str occurs in set (true for the empty str), false otherwise; bit-set indexing inside the 256 bit table, reads inside set and str",
-     "h_string_checkset", cls="bounded", bound="set of 0..4 bytes, str of 0..4 bytes, all byte contents (high bytes and NUL included)", functions=["cfun_string_checkset"], unwind=6, cbmc=["--sat-solver", "cadical"],
-     defines=["-DLIB_MAXSET=4", "-DLIB_MAXSTR=4"],
+     "h_string_checkset", cls="bounded", bound="set of 0..4 bytes, str of 0..3 bytes, all byte contents (high bytes and NUL included)", functions=["cfun_string_checkset"], unwind=6, cbmc=["--sat-solver", "cadical"],
+     defines=["-DLIB_MAXSET=4", "-DLIB_MAXSTR=3"],
      assumes=["capi.c getters are stubs: janet_getbytes yields the harness-built views, asserts slot index < argc; janet_fixarity returns only for an accepted argc",
               "domain restriction: no byte with (b & 31) == 31 in set or str (`1 << 31` in int is formally undefined; unit lib.string.checkset.shift31 keeps that obligation)"],
      mutants=[mut("mask-uses-4-bits", "string.c", "        uint32_t mask = 1 << (str.bytes[i] & 0x1F);\n        if (!(bitset[index] & mask)) {", "        uint32_t mask = 1 << (str.bytes[i] & 0x0F);\n        if (!(bitset[index] & mask)) {", "C17"),
@@ -174,13 +174,15 @@ unit("lib.string.checkset.shift31", "string/check-set, ALL byte values: the bit 
 # ------------------------------------------------------------------ string.c: repeat / join (number of copies bounded)
 J = dict(S, harness=["lib_string.c", "lib_string_join.c"], cbmc=["--sat-solver", "cadical"])
 MM = "memcpy model (seq_common.h): ranges valid and disjoint - counted obligations; pointwise effect on the ghost byte of every copy"
-unit("lib.string.repeat",
-     "string/repeat: arity 2; raises for a negative count; returns a NEW NUL-terminated string of n * len bytes (the empty string for n == 0 or an empty argument), computed without int32 overflow - raises instead of exceeding INT32_MAX; copy c occupies [c * len, (c + 1) * len) and equals bytes (byte i == bytes[i mod len]); every memcpy inside the new block and the source; bytes not modified",
-     "h_string_repeat", cf("cfun_string_repeat"), cls="bounded", bound="at most 3 repetitions (the pointer-walking copy loop is unwound); length of bytes unbounded (0..INT32_MAX)",
-     unwindset={"cfun_string_repeat_wrapped_for_contract_checking.0": 5, "strlen.0": 3}, assumes=SA + [MM, "strlen (CBMC library model) on the literal \"\" for n == 0"], **J,
-     mutants=[mut("overflow-check-dropped", "string.c", "    if (mulres > INT32_MAX) janet_panic(\"result string is too long\");\n", "", "postcondition|janet_string_begin precondition|conversion|overflow"),
-              mut("multiply-in-int32", "string.c", "int64_t mulres = (int64_t) rep * view.len;", "int64_t mulres = rep * view.len;", "overflow"),
-              mut("one-copy-too-many", "string.c", "for (uint8_t *p = newbuf; p < end; p += view.len) {", "for (uint8_t *p = newbuf; p <= end; p += view.len) {", "memcpy model|unwind|postcondition|pointer")])
+REP_M = [mut("overflow-check-dropped", "string.c", "    if (mulres > INT32_MAX) janet_panic(\"result string is too long\");\n", "", "postcondition|janet_string_begin precondition|conversion|overflow"),
+         mut("multiply-in-int32", "string.c", "int64_t mulres = (int64_t) rep * view.len;", "int64_t mulres = rep * view.len;", "overflow"),
+         mut("one-copy-too-many", "string.c", "for (uint8_t *p = newbuf; p < end; p += view.len) {", "for (uint8_t *p = newbuf; p <= end; p += view.len) {", "memcpy model|unwind|postcondition|pointer")]
+for r, idr, tier in ((2, "lib.string.repeat", "quick"), (3, "lib.string.repeat.r3", "thorough")):
+    unit(idr,
+         "string/repeat, at most %d repetitions: arity 2; raises for a negative count; returns a NEW NUL-terminated string of n * len bytes (the empty string for n == 0 or an empty argument), computed without int32 overflow - raises instead of exceeding INT32_MAX; copy c occupies [c * len, (c + 1) * len) and equals bytes (byte i == bytes[i mod len]); every memcpy inside the new block and the source; bytes not modified" % r,
+         "h_string_repeat", cf("cfun_string_repeat"), cls="bounded", bound="at most %d repetitions (the pointer-walking copy loop is unwound); length of bytes unbounded (0..INT32_MAX)" % r, tier=tier, timeout=300,
+         unwindset={"cfun_string_repeat_wrapped_for_contract_checking.0": r + 2, "strlen.0": 3}, assumes=SA + [MM, "strlen (CBMC library model) on the literal \"\" for n == 0"],
+         mutants=REP_M, **dict(J, defines=J["defines"] + ["-DLIB_MAXREP=%d" % r]))
 JM = [mut("separator-after-every-part", "string.c", "        if (i) {\n            safe_memcpy(out, joiner.bytes, joiner.len);\n            out += joiner.len;\n        }\n        janet_bytes_view(parts.items[i], &chunk, &chunklen);\n        safe_memcpy(out, chunk, chunklen);\n        out += chunklen;",
           "        janet_bytes_view(parts.items[i], &chunk, &chunklen);\n        safe_memcpy(out, chunk, chunklen);\n        out += chunklen;\n        {\n            safe_memcpy(out, joiner.bytes, joiner.len);\n            out += joiner.len;\n        }", "memcpy model|postcondition"),
       mut("length-check-dropped", "string.c", "        if (finallen > INT32_MAX)\n            janet_panic(\"result string too long\");\n", "", "postcondition|conversion|janet_string_begin precondition|memcpy model"),
@@ -193,7 +195,7 @@ for n in (0, 1, 2, 3):
          unwindset={"cfun_string_join_wrapped_for_contract_checking.0": 5, "cfun_string_join_wrapped_for_contract_checking.1": 5, "janet_bytes_view.0": 5, "h_string_join.0": 5, "h_string_join.1": 5, "h_string_join.2": 5},
          assumes=SA + [MM, "janet_getindexed yields the harness-built view of parts; janet_bytes_view is a pure function of the element: equal elements have the same view, an element may be no byte sequence"],
          **dict(J, defines=J["defines"] + ["-DLIB_NPARTS=%d" % n]), tier=("quick" if n < 3 else "thorough"), timeout=(120 if n < 3 else 600),
-         mutants=(JM if n >= 2 else [JM[2], JM_INIT] if n == 1 else [JM_INIT]))
+         mutants=(JM[:1] if n == 3 else JM if n == 2 else [JM[2], JM_INIT] if n == 1 else [JM_INIT]))
 
 # ------------------------------------------------------------------ buffer.c: the remaining registered C functions
 ALLOC = ("realloc model (seq_common.h): fails or returns a fresh block of n bytes, frees the old block, "
@@ -220,15 +222,10 @@ for nm, nb, getter, val, muts in [
     ("float64", 8, "janet_getnumber", "a number (64 bit float)",
      [mut("reverse-dropped", "buffer.c", "    double data = janet_getnumber(argv, 2);\n    uint8_t bytes[sizeof(data)];\n    memcpy(bytes, &data, sizeof(bytes));\n    if (reverse)\n        reverse_u64(bytes);", "    double data = janet_getnumber(argv, 2);\n    uint8_t bytes[sizeof(data)];\n    memcpy(bytes, &data, sizeof(bytes));", "postcondition")])]:
     fn = "cfun_buffer_push_" + nm
-    extra = ["domain restriction: data is NaN, infinite or within the float range (a finite double beyond it overflows in (float) x - C99 6.3.1.5; unit lib.buffer.push_float32.anydouble keeps that obligation)"] if nm == "float32" else []
+    extra = ["IEEE 754 / Annex F conversion double -> float (a finite double beyond the float range becomes an infinity)"] if nm == "float32" else []
     unit("lib.buffer.push_" + nm,
          "buffer/push-%s, every buffer size: arity 3; order must be :le, :be or :native (else raises); data is fetched as %s; appends exactly its %d bytes - least significant byte first for :le and :native (little-endian configuration), most significant first for :be; prefix unchanged; raises instead of exceeding INT32_MAX; foreign memory never reallocated; returns buffer" % (nm, val, nb),
          "h_buffer_push_" + nm, cf(fn), assumes=BA + [ORDER] + extra, mutants=muts, functions=[fn, "should_reverse_bytes", "janet_buffer_push_bytes"], **B)
-unit("lib.buffer.push_float32.anydouble", "buffer/push-float32, ALL numbers: the conversion of data to float is defined",
-     "h_buffer_push_float32", cf("cfun_buffer_push_float32"), tier="thorough",
-     disabled_reason="fails on the pinned tree (cfun_buffer_push_float32 overflow obligation 'arithmetic overflow on floating-point typecast'): (float) x for a finite double beyond FLT_MAX is undefined by C99 6.3.1.5; every IEEE 754 / Annex F implementation yields an infinity - (buffer/push-float32 @\"\" :le 1e300) -> @\"\\0\\0\\x80\\x7F\" - so no observable misbehaviour",
-     assumes=BA + [ORDER], **dict(B, defines=B["defines"] + ["-DLIB_F32_ANY_DOUBLE"]),
-     mutants=[mut("pushes-the-double", "buffer.c", "    float data = (float) janet_getnumber(argv, 2);", "    double data = janet_getnumber(argv, 2);", "postcondition|memcpy model|pointer")])
 unit("lib.buffer.clear", "buffer/clear: arity 1; length becomes 0, capacity and block kept, no reallocation, nothing else written; returns buffer",
      "h_buffer_clear", cf("cfun_buffer_clear"), assumes=BA, **B,
      mutants=[mut("clears-capacity", "buffer.c", "    JanetBuffer *buffer = janet_getbuffer(argv, 0);\n    buffer->count = 0;\n    return argv[0];", "    JanetBuffer *buffer = janet_getbuffer(argv, 0);\n    buffer->capacity = 0;\n    return argv[0];", "postcondition|assigns")])
@@ -288,6 +285,24 @@ unit("lib.buffer.push", "buffer/push, every buffer size: arity >= 1; a number pu
               mut("stale-view-after-growth", "buffer.c", "                janet_buffer_ensure(buffer, buffer->count + view.len, 2);\n                view.bytes = buffer->data;\n            }\n            janet_buffer_push_bytes(buffer, view.bytes, view.len);\n        }\n    }\n}",
                   "                janet_buffer_ensure(buffer, buffer->count + view.len, 2);\n            }\n            janet_buffer_push_bytes(buffer, view.bytes, view.len);\n        }\n    }\n}", "memcpy model|pointer|postcondition|deallocated")])
 
+BF = dict(src=["buffer.c"], link=["wrap.c"], harness=["lib_buffer_format.c"], defines=["-DSEQ_ELEM_BYTES", "-DSEQ_TRACK_REALLOC"], props=["C17"])
+BFA = [ALLOC, "janet_buffer_format (pp.c) replaced by its frame contract: appends any number of bytes to the buffer it is given (may reallocate, raises instead of exceeding INT32_MAX), never touches bytes below the count it was called with; asserts it gets the buffer, the format string and the argument vector",
+       "capi.c getters are stubs: slot 0 is a well-formed buffer, janet_getinteger the slot's low 32 bits, janet_getstring the format string; each asserts slot index < argc; janet_arity returns only for an accepted argc"]
+unit("lib.buffer.format", "buffer/format: arity >= 2; the format string is slot 1, the formatter appends to the buffer with the arguments starting at slot 2; bytes already in the buffer unchanged; returns buffer",
+     "h_buffer_format", cf("cfun_buffer_format"), assumes=BFA, **BF,
+     mutants=[mut("arguments-start-at-format", "buffer.c", "    janet_buffer_format(buffer, strfrmt, 1, argc, argv);\n    return argv[0];", "    janet_buffer_format(buffer, strfrmt, 0, argc, argv);\n    return argv[0];", "postcondition")])
+FAT_M = [mut("upper-bound-dropped", "buffer.c", "    if (at > buffer->count || at < 0) janet_panicf(\"expected index at to be in range [0, %d), got %d\", buffer->count, at);", "    if (at < 0) janet_panicf(\"expected index at to be in range [0, %d), got %d\", buffer->count, at);", "postcondition|janet_buffer_format precondition"),
+         mut("length-not-restored", "buffer.c", "    janet_buffer_format(buffer, strfrmt, 2, argc, argv);\n    if (buffer->count < oldcount) {\n        buffer->count = oldcount;\n    }", "    janet_buffer_format(buffer, strfrmt, 2, argc, argv);", "postcondition"),
+         mut("end-relative-off-by-one", "buffer.c", "        at += buffer->count + 1;", "        at += buffer->count;", "postcondition")]
+unit("lib.buffer.format_at", "buffer/format-at, every buffer size (< INT32_MAX) and index: at must lie in [0, length] or be negative from the end (-1 = at the end), else raises; the formatter writes from index at on with the arguments starting at slot 3; the buffer never gets shorter (length = max(old length, end of the formatted text)); bytes before at and old bytes behind the formatted text unchanged; returns buffer",
+     "h_buffer_format_at", cf("cfun_buffer_format_at"), mutants=FAT_M, **BF,
+     assumes=BFA + ["domain restriction argc >= 3: the arity check accepts 2 arguments although the format string is fetched from slot 2 (unit lib.buffer.format_at.argc2)",
+                    "domain restriction length < INT32_MAX (`buffer->count + 1` overflows for a buffer of exactly 2 GiB - 1 bytes, as in janet_gethalfrange)"])
+unit("lib.buffer.format_at.argc2", "buffer/format-at, ALL argument counts: no argument slot is read at an index >= argc",
+     "h_buffer_format_at", cf("cfun_buffer_format_at"), tier="thorough", mutants=FAT_M[:1] + [mut("arity-two-again", "buffer.c", "    janet_arity(argc, 3, -1);\n    JanetBuffer *buffer = janet_getbuffer(argv, 0);\n    int32_t at = janet_getinteger(argv, 1);", "    janet_arity(argc, 2, -1);\n    JanetBuffer *buffer = janet_getbuffer(argv, 0);\n    int32_t at = janet_getinteger(argv, 1);", "below argc")],
+     history="failed on the pinned tree (janet_getstring.assertion.1: argument slot index below argc) - janet_arity(argc, 2, -1) although the format string is read from slot 2; repaired in /repo e727fa4",
+assumes=BFA, **dict(BF, defines=BF["defines"] + ["-DLIB_FORMAT_AT_ANY_ARGC"]))
+
 # ------------------------------------------------------------------ array.c: the remaining registered C functions
 A = dict(src=["array.c"], link=["wrap.c", "util.c"], link_keep={"util.c": ["safe_memcpy"]}, harness=["lib_array.c"], object_bits=7,
          replace_calls=["realloc:lib_realloc_j"], props=["C04", "C17"])
@@ -340,7 +355,7 @@ CCA = ["janet_array_push / janet_array_ensure replaced by asserting models of th
 M_STALE = lambda which: mut("stale-view-after-reservation", "array.c",
     "                    janet_array_ensure(array, newcount, 2);\n                    janet_indexed_view(argv[i], &vals, &len);\n                }" if which == "concat" else "            janet_array_ensure(array, newcount, 2);\n            janet_indexed_view(argv[i], &vals, &len);\n        }",
     "                    janet_array_ensure(array, newcount, 2);\n                }" if which == "concat" else "            janet_array_ensure(array, newcount, 2);\n        }", "pointer_dereference|C17|deallocated")
-M_NORES = mut("self-concat-not-reserved", "array.c", "                if (array->data == vals) {\n                    int32_t newcount = array->count + len;\n                    janet_array_ensure(array, newcount, 2);\n                    janet_indexed_view(argv[i], &vals, &len);\n                }\n", "", "pointer_dereference|C17|deallocated")
+M_NORES = mut("self-concat-not-reserved", "array.c", "                if (array->data == vals) {\n                    if (len > INT32_MAX - array->count) janet_panic(\"array overflow\");\n                    int32_t newcount = array->count + len;\n                    janet_array_ensure(array, newcount, 2);\n                    janet_indexed_view(argv[i], &vals, &len);\n                }\n", "", "pointer_dereference|C17|deallocated")
 M_ARG0 = lambda which: mut("starts-at-slot-0", "array.c", "JanetArray *array = janet_getarray(argv, 0);\n    for (i = 1; i < argc; i++) {\n        %s" % ("switch (janet_type(argv[i])) {" if which == "concat" else "int32_t j, len = 0;"),
                            "JanetArray *array = janet_getarray(argv, 0);\n    for (i = 0; i < argc; i++) {\n        %s" % ("switch (janet_type(argv[i])) {" if which == "concat" else "int32_t j, len = 0;"), "C17|unwind")
 for n in (1, 2, 3):
@@ -357,7 +372,7 @@ SELF_DEFECT = ("GENUINE DEFECT on the pinned tree (%s overflow obligation on `ar
 for nm, lisp, dfn in [("concat", "array/concat", []), ("join", "array/join", ["-DLIB_JOIN"])]:
     unit("lib.array.%s.self-any-size" % nm, "%s of an array with itself, ALL sizes: the reservation length `count + len` is computed without int32 overflow and the element view read in the copy loop is live" % lisp,
          "h_array_concat_self", cls="bounded", bound="first 2 element copies only (copy loop cut without unwinding assertion); array size unbounded", tier="thorough",
-         unwinding_assertions=False, disabled_reason=SELF_DEFECT % ("cfun_array_" + nm, lisp), assumes=CCA, functions=["cfun_array_" + nm],
+         unwinding_assertions=False, history="failed on the pinned tree; repaired in /repo 00910a6: " + SELF_DEFECT % ("cfun_array_" + nm, lisp), assumes=CCA, functions=["cfun_array_" + nm],
          mutants=[M_NORES if nm == "concat" else M_STALE("join")], **dict(CC, defines=["-DLIB_MAXPART=2"] + dfn, unwind=3))
 
 # ------------------------------------------------------------------ tuple.c
@@ -398,7 +413,7 @@ for n in (0, 1, 2):
          "h_tuple_join", cf(fn), cls="bounded", bound="exactly %d part(s) (both passes over the arguments are unwound; units n0..n2); the length of every part unbounded" % n,
          assumes=TUA + ["janet_indexed_view is a pure function of the value: equal arguments have the same view; an argument may be no indexed sequence"],
          unwindset={W(fn) + ".0": 4, W(fn) + ".1": 4, "janet_indexed_view.0": 4, "h_tuple_join.0": 4},
-         **dict(TU, defines=["-DLIB_NPARTS=%d" % n]),
+         tier=("quick" if n < 2 else "thorough"), timeout=300, **dict(TU, defines=["-DLIB_NPARTS=%d" % n]),
          mutants=([mut("overflow-check-dropped", "tuple.c", "        if (INT32_MAX - total_len < len) {\n            janet_panic(\"tuple too large\");\n        }\n", "", "overflow|postcondition"),
                    mut("cursor-not-advanced", "tuple.c", "        tup_cursor += len;\n", "", "postcondition|memcpy model")] if n == 2 else
                   [mut("type-check-dropped", "tuple.c", "        if (!janet_indexed_view(argv[i], &vals, &len)) {\n            janet_panicf(\"expected indexed type for argument %d, got %v\", i, argv[i]);\n        }\n        if (INT32_MAX - total_len < len) {", "        janet_indexed_view(argv[i], &vals, &len);\n        if (INT32_MAX - total_len < len) {", "postcondition|memcpy model|pointer")] if n == 1 else
@@ -440,7 +455,7 @@ unit("lib.table.clone", "table/clone, every capacity: arity 1; returns a NEW tab
               mut("copies-count-buckets", "table.c", "    memcpy(newTable->data, table->data, (size_t) table->capacity * sizeof(JanetKV));", "    memcpy(newTable->data, table->data, (size_t) table->count * sizeof(JanetKV));", "C04|memcpy model")])
 
 # ------------------------------------------------------------------ struct.c: registered C functions
-ST = dict(mode="plain", nanbox=False, src=["struct.c"], link=["wrap.c"], harness=["lib_struct.c"], props=["C04"], unwind=9, cbmc=["--sat-solver", "cadical"],
+ST = dict(mode="plain", nanbox=False, src=["struct.c"], link=["wrap.c"], harness=["lib_struct.c"], props=["C04"], unwind=5,
           replace_calls=["janet_struct_begin:janet_struct_begin_stub", "janet_struct_put:janet_struct_put_stub", "janet_struct_put_ext:janet_struct_put_ext_stub",
                          "janet_struct_end:janet_struct_end_stub", "janet_struct_rawget:janet_struct_rawget_stub"], cls="bounded")
 STB = "prototype chains of 1..3 structs with 1..2 buckets each (any bucket content, empty buckets included); at most 7 arguments"
@@ -463,10 +478,12 @@ unit("lib.struct.to_table", "struct/to-table: arity 1..2; without a truthy `recu
      mutants=[mut("always-recursive", "struct.c", "    } while (recursive && cursor);", "    } while (cursor);", "C04"),
               mut("pairs-into-first-table", "struct.c", "                janet_table_put(tab_cursor, kv->key, kv->value);\n            }\n        }\n        cursor = janet_struct_proto(cursor);", "                janet_table_put(tab, kv->key, kv->value);\n            }\n        }\n        cursor = janet_struct_proto(cursor);", "C04|harness"),
               mut("reads-one-bucket-too-many", "struct.c", "        for (int32_t i = 0; i < janet_struct_capacity(cursor); i++) {\n            const JanetKV *kv = cursor + i;\n            if (!janet_checktype(kv->key, JANET_NIL)) {\n                janet_table_put(tab_cursor", "        for (int32_t i = 0; i <= janet_struct_capacity(cursor); i++) {\n            const JanetKV *kv = cursor + i;\n            if (!janet_checktype(kv->key, JANET_NIL)) {\n                janet_table_put(tab_cursor", "pointer_dereference|C04|harness")])
-unit("lib.struct.proto_flatten", "struct/proto-flatten: arity 1; ONE new struct without prototype, created with room for the sum of the lengths along the chain (64-bit sum, raises above INT32_MAX); the pairs are put nearest struct first without replacing, so the nearest definition of a key wins; the chain ends (structs cannot be cyclic); inputs not modified",
-     "h_struct_flatten", bound=STB, functions=["cfun_struct_flatten"], assumes=STA[:2] + STA[3:], **ST,
-     mutants=[mut("later-definitions-replace", "struct.c", "                janet_struct_put_ext(accum, kv->key, kv->value, 0);", "                janet_struct_put_ext(accum, kv->key, kv->value, 1);", "C04"),
-              mut("room-for-first-struct-only", "struct.c", "    JanetKV *accum = janet_struct_begin((int32_t) pair_count);", "    JanetKV *accum = janet_struct_begin(janet_struct_length(st));", "C04")])
+FLAT_M = [mut("later-definitions-replace", "struct.c", "                janet_struct_put_ext(accum, kv->key, kv->value, 0);", "                janet_struct_put_ext(accum, kv->key, kv->value, 1);", "C04"),
+          mut("room-for-first-struct-only", "struct.c", "    JanetKV *accum = janet_struct_begin((int32_t) pair_count);", "    JanetKV *accum = janet_struct_begin(janet_struct_length(st));", "C04")]
+for d, tier in ((2, "quick"), (3, "thorough")):
+    unit("lib.struct.proto_flatten.d%d" % d, "struct/proto-flatten, chains of up to %d structs: arity 1; ONE new struct without prototype, created with room for the sum of the lengths along the chain (64-bit sum, raises above INT32_MAX); the pairs are put nearest struct first without replacing, so the nearest definition of a key wins; the walk ends with the chain (structs are immutable and cannot be cyclic); inputs not modified" % d,
+         "h_struct_flatten", bound=STB.replace("1..3 structs", "1..%d structs" % d), functions=["cfun_struct_flatten"], assumes=STA[:2] + STA[3:], tier=tier, timeout=(120 if d == 2 else 400),
+         mutants=FLAT_M, **dict(ST, defines=["-DLIB_DEPTH=%d" % d]))
 json.dump({"defaults": {"props": ["C17"], "mode": "dfcc", "timeout": 120, "object_bits": 8, "checks": CHECKS}, "units": units},
           open(os.path.join(V, "units", "C17_lib.json"), "w"), indent=1)
 print(len(units), "units")
